@@ -35,6 +35,11 @@ theorem durability_pragmas : Gen.journalModeWal = true ∧ Gen.synchronousNormal
     cursor exists — it never returns None for a live database just because another thread holds the lock -/
 theorem db_call_waits_for_lock : Gen.dbCallBlocking = true := by decide
 
+/-- INSERT OR IGNORE (a returned insert that may have stored nothing) occurs only in the three IdentityDatabase methods
+    for which that is a recorded known finding; any other insert must raise on a duplicate key (plain INSERT) -/
+theorem or_ignore_only_where_known :
+    ∀ m ∈ Gen.insertMethods, ∀ p ∈ m.paths, usesOrIgnore p = true → m.cls = 0 ∧ m.name ≤ 2 := by decide
+
 example : Gen.insertMethods.length ≥ 4 := by decide
 
 /-! ## crash at any point of any workload of inserts -/
@@ -385,6 +390,14 @@ theorem batches_flush_on_exit (C : CommitMethod) (hC : wfCommit C = true) (hB : 
   have h := runCalls_batched C hC hB W hW Db.init ⟨fun _ => rfl⟩
   exact ⟨h.1, h.2.2.1⟩
 
+/-- … and a kill at that moment loses nothing: after a sequence of batches that has been left completely
+    (`defer = 0`), what a fresh process sees is the reference content of all its inserts -/
+theorem batches_survive_kill (C : CommitMethod) (hC : wfCommit C = true) (hB : wfBatch C = true) (W : List Call)
+    (hW : Batched W) (hleft : (runCalls C W Db.init).defer = 0) :
+    visible (runCalls C W Db.init) = (spec W).1 := by
+  obtain ⟨h1, h2⟩ := batches_flush_on_exit C hC hB W hW
+  rw [visible_eq, h2 (by omega), h1]
+
 /-- the generated `Database` nests and flushes -/
 theorem batch_counter_shape : wfBatch Gen.commitMethod = true := by decide
 
@@ -424,6 +437,22 @@ theorem reopen_never_fails_identity : OpenSafe Gen.openIdentityDatabase 1 :=
     the version row (commit 6e6fbfe); see the example below for the script it replaced. -/
 theorem reopen_never_fails_wallet : OpenSafe Gen.openAttestationsDB 2 :=
   openSafe_of _ _ (by decide)
+
+/-- file states stay `consistent` under a killed open: so any number of killed opens in a row, then a complete one,
+    is covered by the two theorems above (decided on all table-free states × every statement prefix; the record
+    tables do not enter `consistent`) -/
+theorem consistent_preserved :
+    (∀ f ∈ flagStates 1, consistent Gen.openIdentityDatabase f = true →
+      ∀ p ∈ prefixes (openStmts Gen.openIdentityDatabase f),
+        consistent Gen.openIdentityDatabase (runTx p (fresh f)).1.committed = true) ∧
+    (∀ f ∈ flagStates 2, consistent Gen.openAttestationsDB f = true →
+      ∀ p ∈ prefixes (openStmts Gen.openAttestationsDB f),
+        consistent Gen.openAttestationsDB (runTx p (fresh f)).1.committed = true) := by decide
+
+/-- an upgrade that adds a column also fills it for the existing records, inside the same transaction (the wallet's
+    reload path decodes `id_format` of every stored record: a NULL there keeps the wallet from ever starting) -/
+theorem upgrade_fills_new_column :
+    ∀ u ∈ Gen.openAttestationsDB.upgrades ++ Gen.openIdentityDatabase.upgrades, upgradeFills u.2 = true := by decide
 
 /-- what the handler list is for (before commit fdb0f78): killed after `CREATE TABLE option`, before the version row
     is inserted, the next open fails -/
